@@ -13,7 +13,7 @@ EXPLANATION = (
     'differently otherwise); R10.d the bridge obtains one bincode configuration, with fixed-width integers, for both '
     'directions; R10.e every register_types registers Self, Self::Output and at least today\'s hand-registered types, and '
     'generated Export impls call register_types of every non-skipped operation. Does not decide agreement of schema and '
-    'bytes per value, nor the generated foreign code. R10.f TypeGen obtains its registry through the checked Tracer::registry() and propagates its error. R10.g each bridge entry point hands the bincode serializer a Vec created empty in that call, gives it to nothing else and returns it: no byte of another (failed) serialisation can precede a message.')
+    'bytes per value, nor the generated foreign code. R10.f TypeGen obtains its registry through the checked Tracer::registry() and propagates its error. R10.h TypeGen::register_type / register_type_with_samples answer Ok only after a Tracer::trace_* call on the type they were given (no short cut by name). R10.g each bridge entry point hands the bincode serializer a Vec created empty in that call, gives it to nothing else and returns it: no byte of another (failed) serialisation can precede a message.')
 
 WIRE_CRATES = ['crux_core', 'crux_http', 'crux_kv', 'crux_time', 'crux_platform']
 
@@ -181,6 +181,26 @@ def check_checked_registry(ctx, rep):
     if not unchecked:
         rep.expect('R10.f', ok, 'registry|checked-and-propagated', 'Tracer::registry() is used and its failure reaches the error return',
                    'TypeGen no longer obtains its registry through a checked Tracer::registry() whose error is propagated (%s)' % (why or 'no call found'))
+    # R10.h: every type handed to the generator is traced: the register_* methods report success only after the tracer was run on this very
+    # type (no "seen this name before" short cut: serde-reflection's own refusal of two different layouts under one name is what keeps two
+    # same-named types from silently sharing a schema)
+    rep.rule('R10.h', 'TypeGen::register_type / register_type_with_samples answer Ok only after the tracer has traced the type they were given', floor=2)
+    n_reg = 0
+    for f in fns:
+        if f.kind != 'AssocFn' or f.j.get('exp') or f.name not in ('register_type', 'register_type_with_samples'):
+            continue
+        if not path_matches(f.assoc.get('self_adt'), 'crux_core::typegen::TypeGen'):
+            continue
+        n_reg += 1
+        traces = [bb for bb, t in f.calls() if norm(t.get('callee') or '').startswith('serde_reflection::trace::Tracer::trace_')]
+        oks = [bb for bb, i, s_ in f.stmts('assign') if s_['rv']['k'] == 'agg' and s_['rv'].get('adt') == 'core::result::Result' and s_['rv'].get('variant') == 'Ok'
+               and s_['d']['l'] == 0 and not s_['d']['p']]
+        free = [b for b in oks if b in f.reachable([0], removed_blocks=traces)]
+        rep.expect('R10.h', bool(traces) and bool(oks) and not free, '%s|traced-before-ok' % f.kpath, 'every Ok return follows a Tracer::trace_* call',
+                   '%s can answer Ok without having traced the type it was given (at %s): a second type filed under the same name keeps the first '
+                   'one\'s layout in the schema, silently' % (f.path, [f.where(b) for b in free]))
+    if n_reg < 2:
+        rep.bad('R10.h', 'sites', 'expected register_type and register_type_with_samples of TypeGen, found %d' % n_reg)
 
 
 def check(ctx, rep):
